@@ -116,6 +116,8 @@ PROPS["C15"] = {
     "harnesses": [
         {"pkg": "loader", "name": "VerifC15_Env", "quick": {},
          "bounds": {"base entries": "<=2", "override entries": "<=1", "keys": "{A,B}", "values": "every byte string over {'=','x'} of length <=2"}},
+        {"pkg": "loader", "name": "VerifC15_Fold", "quick": {}, "thorough": {},
+         "bounds": {"extends chain": "child / child->parent / child->parent->grandparent", "per file": "sets log_level or not, defines process svc or not"}},
         {"pkg": "loader", "name": "VerifC15_EnvDeep", "thorough": {},
          "bounds": {"base entries": "<=2", "override entries": "<=1", "keys": "{A,B}", "values": "every byte string over {'=','x'} of length <=3"}},
     ],
@@ -128,6 +130,8 @@ PROPS["C17"] = {
         {"pkg": "app", "name": "VerifC17_Launch", "quick": {}, "thorough": {},
          "bounds": {"layers": "inherited/global/per-process, <=1 entry each", "keys": "A (all layers), PC_PROC_NAME/PC_REPLICA_NUM (inherited)",
                     "values": "byte strings over {x,y} len<=1", "replica_num": "[0,99]"}},
+        {"pkg": "app", "name": "VerifC17_Project", "quick": {"d": 0}, "thorough": {"d": 1}, "replay_repeat": 4,
+         "bounds": {"processes": "alpha (2 own variables, restarted once) and beta (1 own variable)", "global variables": "1..4 plus one from env_cmds"}},
         {"pkg": "loader", "name": "VerifC17_Expand", "quick": {}, "thorough": {},
          "bounds": {"text": "1..3 tokens from {literal over {a,-,space} len<=2, $$, $VX, ${VX}, ${VY}}", "expansion": "enabled/disabled", "values": "VX=val, VY=p$q"}},
     ],
